@@ -12,8 +12,8 @@ from . import thr, tok
 BOUNDS = {"quick": [dict(K=3, obs=1, pre=2, to=1), dict(K=2, obs=2, pre=1, to=1, log=True), dict(K=4, obs=1, pre=1, to=1, log=True),
                     dict(K=3, obs=1, pre=1, to=1, log=True, printer=True), dict(K=3, obs=1, pre=2, to=1, onstart=True, flags=(True, False)),
                     dict(K=4, obs=1, pre=1, to=1, flags=(False, True))],
-          "thorough": [dict(K=6, obs=1, pre=2, to=2), dict(K=3, obs=2, pre=2, to=1, log=True), dict(K=5, obs=1, pre=3, to=1), dict(K=2, obs=3, pre=1, to=1),
-                       dict(K=7, obs=1, pre=1, to=1, log=True), dict(K=4, obs=1, pre=2, to=1, log=True, printer=True),
+          "thorough": [dict(K=6, obs=1, pre=2, to=2), dict(K=3, obs=2, pre=2, to=1, log=True), dict(K=5, obs=1, pre=3, to=1), dict(K=2, obs=3, pre=1, to=0), dict(K=3, obs=3, pre=0, to=1),
+                       dict(K=7, obs=1, pre=1, to=1, log=True), dict(K=3, obs=1, pre=2, to=1, log=True, printer=True),
                        dict(K=4, obs=1, pre=2, to=1, onstart=True, flags=(True, False)), dict(K=5, obs=1, pre=1, to=1, flags=(False, True))]}
 
 
